@@ -167,10 +167,12 @@ pub fn lits_full() -> Vec<V> {
         s("xyz"),
         l(vec![i(1), s("x")]),
         rng_f(1.0, 2.0, true, false),
+        l(vec![V::Regex("^x".into()), s("y"), i(1)]),
+        l(vec![V::Regex("y".into()), V::Regex("x$".into())]),
     ]
 }
 pub fn lits_quick() -> Vec<V> {
-    vec![i(1), s("x"), l(vec![i(1), i(2)]), l(vec![i(1)]), rng_i(1, 2, true, true), V::Null, l(vec![])]
+    vec![i(1), s("x"), l(vec![i(1), i(2)]), l(vec![i(1)]), rng_i(1, 2, true, true), V::Null, l(vec![]), l(vec![V::Regex("^x".into()), s("y"), i(1)])]
 }
 
 // ---------------- queries
